@@ -2,9 +2,9 @@
    model side of the correspondence lives here (in Gallina); the OCaml driver is generic. *)
 From Coq Require Import Strings.String.
 From ZipV Require Import Base.Bytes Base.Outcome Gen.GenLib Gen.TypesGen Model.Dos Extract.Obs.
-From ZipV Require Import Spec.PathSpec Model.Path Spec.Utf8 Model.Cp437.
-Open Scope N_scope.
+From ZipV Require Import Spec.PathSpec Model.Path Spec.Utf8 Model.Cp437 Gen.CompressionGen Model.Readers Model.Reader Spec.Crc32Spec.
 Open Scope string_scope.
+Open Scope N_scope.
 
 Definition dt_obs (dt : DateTime) : obs :=
   OL [ON (DateTime_year dt); ON (DateTime_month dt); ON (DateTime_day dt);
@@ -53,9 +53,107 @@ Definition dispatch_text (op : bytes) (args : list arg) : option obs :=
     | _ => None end
   else None.
 
+(* ---------- reader ops *)
+Definition dummy_kdf (pw salt : bytes) (n : N) : bytes := [].
+Definition dummy_blk (k b : bytes) : bytes := b.
+Definition dummy_mac (k m : bytes) : bytes := [].
+
+Definition time_obs (dt : DateTime) : obs :=
+  OL [ON (DateTime_year dt); ON (DateTime_month dt); ON (DateTime_day dt);
+      ON (DateTime_hour dt); ON (DateTime_minute dt); ON (DateTime_second dt)].
+
+Definition ends_with_sep (n : bytes) : bool :=
+  match rev n with b :: _ => Byte.eqb b x2f || Byte.eqb b x5c | [] => false end.
+
+Definition meta_obs (f : zfd) (ds : N) : obs :=
+  OL [OB (f_name f); OB (f_name_raw f); OB (f_comment f); ON (CompressionMethod_to_u16 (f_method f));
+      ON (f_csize f); ON (f_usize f); ON (f_crc f); time_obs (f_time f); oopt ON (unix_mode f);
+      OB (f_extra f); ON (f_header_start f); ON (f_central_start f); ON ds;
+      ON (f_made_by f / 10); ON (f_made_by f mod 10); obool (ends_with_sep (f_name f));
+      oopt OB (enclosed_name (f_name f)); OB (mangled_name (f_name f))].
+
+(* read to the end with a fixed buffer size; on error report the bytes delivered before it *)
+Fixpoint read_loop {S} (rd : reader S) (fuel : nat) (s : S) (n : N) (acc : bytes) : obs :=
+  match fuel with
+  | O => T "OUT-OF-FUEL"
+  | Datatypes.S f =>
+      (* n = 0 stands for: a zero-length read before every 3-byte read *)
+      let pre := if n =? 0 then rd s 0 else Ok ([], s) in
+      match pre with
+      | Ok (_, s0) =>
+          match rd s0 (if n =? 0 then 3 else n) with
+          | Ok (bs, s') => if len bs =? 0 then OL [T "Ok"; OB acc] else read_loop rd f s' n (acc ++ bs)
+          | Err e => OL [T "Err"; err_obs e; OB acc]
+          | Panic p => OL [T "PANIC"; site_obs p]
+          end
+      | Err e => OL [T "Err"; err_obs e; OB acc]
+      | Panic p => OL [T "PANIC"; site_obs p]
+      end
+  end.
+
+Definition entry_obs (data : bytes) (i : N) (pw : option bytes) (bufsize : N) : obs :=
+  match open data with
+  | Err e => OL [T "OpenErr"; err_obs e]
+  | Panic p => OL [T "PANIC"; site_obs p]
+  | Ok ar =>
+      if match nth_error (ar_files ar) (N.to_nat i), pw with
+         | Some f, Some _ => f_encrypted f && opt_is_some (f_aes f)
+         | _, _ => false end
+      then T "SKIP-AES" else
+      match by_index_opt dummy_kdf ar i pw with
+      | Err e => OL [T "Err"; err_obs e]
+      | Panic p => OL [T "PANIC"; site_obs p]
+      | Ok None => match pw with None => OL [T "Err"; err_obs (EUnsupported MPasswordRequired)] | Some _ => T "InvalidPassword" end
+      | Ok (Some (f, ds, c)) =>
+          let m := meta_obs f ds in
+          match c with
+          | CAes _ _ => OL [T "Ok"; m; T "SKIP"]
+          | _ =>
+              if CompressionMethod_eqb (f_method f) CompressionMethod_Stored then
+                OL [T "Ok"; m; read_loop (zipfile_read dummy_blk dummy_mac crc32) (Datatypes.S (length data)) (make_stored f c) bufsize []]
+              else if method_supported (f_method f) then OL [T "Ok"; m; T "SKIP"]
+              else OL [T "Ok"; m; OL [T "PANIC"; site_obs PMethodNotSupported]]
+          end
+      end
+  end.
+
+Fixpoint insert_sorted (x : bytes) (l : list bytes) : list bytes :=
+  match l with
+  | [] => [x]
+  | y :: r => if bytes_eqb x y then l else if bytes_ltb x y then x :: l else y :: insert_sorted x r
+  end.
+
+Definition dispatch_reader (op : bytes) (args : list arg) : option obs :=
+  if is_op op "open" then
+    match args with
+    | [AB data] => Some (res_obs (fun ar => OL [ON (ar_offset ar); OB (ar_comment ar); ON (N.of_nat (length (ar_files ar)));
+                                              OL (map OB (fold_right insert_sorted [] (map f_name (ar_files ar))))]) (open data))
+    | _ => None end
+  else if is_op op "entry" then
+    match args with
+    | [AB data; AN i; AN haspw; AB pw; AN bufsize] => Some (entry_obs data i (if N.eqb haspw 0%N then None else Some pw) bufsize)
+    | _ => None end
+  else if is_op op "byname" then
+    match args with
+    | [AB data; AB name] =>
+        Some (match open data with
+              | Ok ar => match index_of_name ar name with
+                         | None => OL [T "Err"; err_obs ENotFound]
+                         | Some i => match by_index dummy_kdf ar i with
+                                     | Ok (f, _, _) => OL [T "Ok"; ON (f_central_start f)]
+                                     | Err e => OL [T "Err"; err_obs e]
+                                     | Panic p => OL [T "PANIC"; site_obs p]
+                                     end
+                         end
+              | Err e => OL [T "OpenErr"; err_obs e]
+              | Panic p => OL [T "PANIC"; site_obs p]
+              end)
+    | _ => None end
+  else None.
+
 Definition first_some (l : list (option obs)) : obs :=
   match flat_map (fun o => match o with Some x => [x] | None => [] end) l with
   | x :: _ => x | [] => T "BADOP" end.
 
 Definition dispatch (op : bytes) (args : list arg) : obs :=
-  first_some [dispatch_dos op args; dispatch_path op args; dispatch_text op args].
+  first_some [dispatch_dos op args; dispatch_path op args; dispatch_text op args; dispatch_reader op args].
